@@ -291,6 +291,59 @@ theorem final_answer_is_relayed_and_cached (cfg : Cfg) (cache : Cache) (dst : Na
   · intro hc; simp only [hc, if_true]; exact lookup_store_same _ _ _
   · intro hc; simp [hc]
 
+/-! ## The clauses end to end (rule text → controller behaviour) -/
+
+/-- **Clause 1+2, end to end.** For a controller whose request program was built from `rs`/`fb`:
+the decision is that of the first matching request rule (or the fallback); if it is `reject` the
+client gets the empty answer, nobody is asked and the cached family is gone — whatever was cached;
+otherwise, unless the answer is already cached under that route, the first upstream asked is the
+one that rule names. -/
+theorem question_follows_first_matching_request_rule (cfg : Cfg) (rs : List SrcRule) (fb : Nat)
+    (cache : Cache) (dst : Nat) (q : Question) (ans : Upstreams)
+    (hc : compileRequest rs fb = some cfg.req)
+    (hup : ∀ o, (o = fb ∨ ∃ r ∈ rs, o = r.out) → o < cfg.nUp ∨ o = 0xFC ∨ o = 0xFD)
+    (hn : cfg.nUp ≤ 0xFC) :
+    let d := decodeReq (firstMatchSrc (reqEnv q) (splitRequestRules rs) fb)
+    let o := handle cfg cache dst false (some q) ans
+    (d = .reject → o.reply = .rejected ∧ o.trace = [] ∧
+        ∀ sc, o.cache.lookup ⟨canonName q.name, q.qtype, sc⟩ = none) ∧
+    (∀ u, d = .to u → cache.lookup ⟨canonName q.name, q.qtype, scopeOf dst u⟩ = none →
+        o.trace.head? = some u) ∧
+    (∀ u recs, d = .to u → cache.lookup ⟨canonName q.name, q.qtype, scopeOf dst u⟩ = some recs →
+        o.trace = [] ∧ o.reply = .answers recs true) := by
+  have hsel := request_select_is_first_match cfg rs fb q hc hup hn
+  refine ⟨?_, ?_, ?_⟩
+  · intro hd
+    have h := reject_beats_cache cfg cache dst q ans (hsel.trans hd)
+    exact ⟨h.1, h.2.1, h.2.2.1⟩
+  · intro u hd hmiss
+    have h := question_goes_to_selected_upstream cfg cache dst q ans u (hsel.trans hd) hmiss
+    rw [h.1]; exact h.2
+  · intro u recs hd hhit
+    have h := cache_hit_asks_nobody cfg cache dst q ans u recs (hsel.trans hd) hhit
+    exact ⟨h.2.1, h.1⟩
+
+/-- **Clause 3, end to end.** For a controller whose response program was built from `rs`/`fb`: an
+upstream answer (to the question asked, below the depth limit) is accepted, emptied or re-asked
+exactly as the first matching response rule — evaluated on the answer's name, type, the answering
+upstream and the A/AAAA addresses — or the fallback says. -/
+theorem answer_follows_first_matching_response_rule (cfg : Cfg) (rs : List SrcRule) (fb : Nat)
+    (q? : Option Question) (ans : Upstreams) (d : Nat) (u : UpRef) (r : Resp) (rq : Question)
+    (hd : d < maxDnsLookupDepth) (h0 : ans d u = some r) (ha : answersQuestion q? r = true)
+    (hq : r.q = some rq) (hname : rq.name ≠ []) (hresp : r.isResponse = true)
+    (hc : compile rs fb = some cfg.resp)
+    (hup : ∀ o, (o = fb ∨ ∃ x ∈ rs, o = x.out) → o < cfg.nUp ∨ o = 0xFC ∨ o = 0xFD)
+    (hn : cfg.nUp ≤ 0xFC) :
+    let dec := decodeResp (firstMatchSrc (respEnv r u) rs fb)
+    (dec = .accept → dialSend cfg q? ans d u = ([u], .ok r)) ∧
+    (dec = .reject → dialSend cfg q? ans d u = ([u], .ok { r with recs := [] })) ∧
+    (∀ k, dec = .next k → dialSend cfg q? ans d u =
+        (u :: (dialSend cfg q? ans (d + 1) (.up k)).1, (dialSend cfg q? ans (d + 1) (.up k)).2)) := by
+  have hsel := response_select_is_first_match cfg rs fb r u rq hq hname hresp hc hup hn
+  have hact := response_action cfg q? ans d u hd
+  exact ⟨fun h => hact.2.2.1 r h0 ha (hsel.trans h), fun h => hact.2.2.2.1 r h0 ha (hsel.trans h),
+    fun k h => hact.2.2.2.2.1 r k h0 ha (hsel.trans h)⟩
+
 /-! ## Clause 4 — the number of re-asks is bounded -/
 
 /-- **Bounded re-asks.** For every configuration (in particular every response rule list, also
